@@ -169,9 +169,13 @@ Definition get (layers : list Z) (t : node) (p : path) : look :=
   | Some (Tree _ _) => LInterior
   | Some (Leaf _ vals) => match top_value layers vals with Some (_, v) => LVal v | None => LEmpty end
   end.
-(* ... and the per-layer contents of the ConfigNode at a path (ConfigNode.metadata) *)
-Definition metadata (t : node) (p : path) : list (Z * (Z * Z)) :=
-  match tfind t p with Some (Leaf _ vals) => vals | _ => [] end.
+(* ... and the per-layer contents of the ConfigNode at a path (ConfigNode.metadata 104-114: in the order of the layer
+   list, lowest first) *)
+Definition metadata (layers : list Z) (t : node) (p : path) : list (Z * (Z * Z)) :=
+  match tfind t p with
+  | Some (Leaf _ vals) => flat_map (fun l => match zassoc l vals with Some sv => [(l, sv)] | None => [] end) layers
+  | _ => []
+  end.
 
 Definition look_code (x : look) : Z * Z :=
   match x with LVal v => (0, v) | LInterior => (1, 0) | LMissing => (2, 0) | LEmpty => (3, 0) end.
@@ -240,7 +244,7 @@ Fixpoint run_cops (layers : list Z) (t : node) (ops : list cop) : bool :=
   | CGet p obs :: r =>
       (let (a, b) := look_code (get layers t p) in (a =? fst obs) && (b =? snd obs)) && run_cops layers t r
   | CMeta p obs :: r =>
-      list_eqb triple_eqb (metadata t p) obs && run_cops layers t r
+      list_eqb triple_eqb (metadata layers t p) obs && run_cops layers t r
   end.
 
 Definition cfg_case := (list Z * list cop)%type.
